@@ -109,6 +109,10 @@ Section Exec.
         if existsb (fun p => N.eqb (fst p) fd) (w_ufd w)
         then set_ufd w (map (fun p => if N.eqb (fst p) fd then (fst p, S (snd p)) else p) (w_ufd w))
         else set_ufd w (w_ufd w ++ [(fd, 1)])
+    | CFire m KPath key =>
+        (* a file is modified: EVERY armed watch of that path sees it, whichever module registered it *)
+        set_srcs w (map (fun s => if skind_eqb (s_kind s) KPath && N.eqb (s_key s) key && s_armed s
+                                  then src_with true (S (s_pending s)) (s_shot s) s else s) (w_srcs w))
     | CFire m k key =>
         match get_mod w m with
         | Some mr => match find_src w mr k key with
